@@ -229,6 +229,7 @@ func genC05(r *core.Rand, env *core.Env, run int) *Scenario {
 	sc.Knobs = Knobs{ShardNum: pick(r, []int{1, 1, 2, 3, 8, 1024}), Databases: 1, YieldRMW: r.Bool(0.8), MaxSteps: 30000,
 		Strategy: pick(r, []int{0, 0, 1, 1, 2, 3}), PreemptPct: pick(r, []int{5, 15, 30, 50})}
 	sc.Knobs.ReplyYield = r.Bool(0.5)
+	sc.Knobs.WriterPref = r.Bool(0.4)
 	profile := pick(r, []string{"reg", "ctr", "list", "set", "hash", "zset", "stream", "mixed", "mixed"})
 	nk := 1 + r.Intn(3)
 	g := &c05gen{r: r, fam: map[string]string{}}
